@@ -3,6 +3,9 @@ macro_rules! registry {
     ($action:ident, $id:expr, $ctx:expr, $path:expr) => {
         match $id {
             "C01" => dispatch!($action, props::c01::C01, $ctx, $path),
+            "C16" => dispatch!($action, props::c16::C16, $ctx, $path),
+            "C17" => dispatch!($action, props::c17::C17, $ctx, $path),
+            "C18" => dispatch!($action, props::c18::C18, $ctx, $path),
             _ => {
                 eprintln!("unknown property {}", $id);
                 2
